@@ -180,6 +180,17 @@ def r2(ck, F):
             cur = b.origin(t["argv"][2])
             if ok and not (cur[0] == "call" and cur[1] == sro[0]):
                 ok, why = False, "advance_date is not given the boundary value should_rollover observed"
+            # one clock reading decides everything: should_rollover, advance_date and refresh_writer (which names the new
+            # file) all get the `now` of this write, so the file a line lands in is the period of the time it was written
+            nows = [bb for bb, t in b.calls() if t["callee"].get("method") == "now" and "RollingFileAppender" in t["callee"].get("path", "")]
+            if ok and len(nows) == 1:
+                for what, cb, idx in (("should_rollover", sro[0], 1), ("advance_date", adv[0], 1), ("refresh_writer", rw[0], 1)):
+                    a = b.origin(b.term(cb)["argv"][idx])
+                    if not (a[0] == "call" and a[1] == nows[0] and not a[3]):
+                        ok, why = False, "%s is not given the clock reading of this write (`now`): after an idle gap of several periods the new file would be named after a stale boundary" % what
+                        break
+            elif ok:
+                ok, why = False, "expected exactly one clock reading (self.now()) per write, found %d" % len(nows)
         if ok:
             ck.ok("C16.R2", "%s: rotate only as the elected rotator, in order" % name, fn=b.path)
         else:
